@@ -8,6 +8,8 @@ pub mod parallel_writer;
 pub(crate) mod resettable_oncelock;
 mod shared_arena;
 pub mod threadpool;
+#[cfg(egglog_verif)]
+pub mod verif;
 use arc_swap::{ArcSwap, Guard};
 
 pub use bitset::BitSet;
@@ -100,6 +102,8 @@ impl<T> DerefMut for MutexWriter<'_, T> {
 
 impl<T> Drop for MutexWriter<'_, T> {
     fn drop(&mut self) {
+        #[cfg(egglog_verif)]
+        crate::verif::perturb(5);
         self.lock
             .token
             .store(Arc::new(ReadToken::ReadOk(TriggerWhenDone::default())));
@@ -132,6 +136,8 @@ impl<T> ReadOptimizedLock<T> {
     pub fn read(&self) -> MutexReader<'_, T> {
         loop {
             let guard = self.token.load();
+            #[cfg(egglog_verif)]
+            crate::verif::perturb(1);
             match guard.as_ref() {
                 ReadToken::ReadOk(..) => {
                     // This fence ensures that we see the outcome of any
@@ -162,16 +168,22 @@ impl<T> ReadOptimizedLock<T> {
                     let unblock_waiters = Arc::new(Notification::default());
                     let write_token = ReadToken::WriteOngoing(unblock_waiters.clone());
                     let readers_done = n.0.clone();
+                    #[cfg(egglog_verif)]
+                    crate::verif::perturb(2);
                     let prev = self.token.compare_and_swap(&guard, Arc::new(write_token));
                     if !std::ptr::eq(prev.as_ref(), guard.as_ref()) {
                         // CAS failed, retry.
                         continue;
                     }
                     mem::drop((guard, prev));
+                    #[cfg(egglog_verif)]
+                    crate::verif::perturb(3);
                     // Do an RCU to trigger an underlying "wait for readers" operation.
                     self.token.rcu(|x| x.clone());
                     // NB: this wait not be necessary... it isn't clear to me if
                     // this is documented behavior of the crate.
+                    #[cfg(egglog_verif)]
+                    crate::verif::perturb(4);
                     readers_done.wait();
                     return MutexWriter {
                         lock: self,
